@@ -19,7 +19,7 @@ def well_formed(key, mask):
 
 @contract("rig/routing_table/utils.py::intersect")
 class Intersect:
-    properties = ("C04",)
+    properties = ("C04", "C01")
     bv = 40
     params = dict(key_a=KEY, mask_a=KEY, key_b=KEY, mask_b=KEY)
 
@@ -37,7 +37,7 @@ class IntersectCommonKey:
     (witness key_a | key_b); in particular two entries that match the same key intersect.  This is
     what makes 'no later entry intersects a removed entry' imply 'no later entry matches a key the
     removed entry matched', and 'no entry above the merge position is covered' sound."""
-    properties = ("C04",)
+    properties = ("C04", "C01")
     bv = 40
     params = dict(key_a=KEY, mask_a=KEY, key_b=KEY, mask_b=KEY)
 
@@ -58,7 +58,7 @@ class MergeCovers:
     """ordered_covering._Merge folds keys and masks as  any_ones |= key, all_ones &= key,
     all_selected &= mask; any_diff = any_ones ^ all_ones; mask = all_selected & ~any_diff;
     key = all_ones & mask.  Step lemma: the folded entry matches every key a member matches."""
-    properties = ("C04",)
+    properties = ("C04", "C01")
     bv = 40
     params = dict(any_ones=KEY, all_ones=KEY, all_selected=KEY, key=KEY, mask=KEY)
 
@@ -101,7 +101,7 @@ def _mk_entry(e):
 
 @contract("rig/routing_table/remove_default_routes.py::_is_defaultable")
 class IsDefaultable:
-    properties = ("C04",)
+    properties = ("C04", "C01")
     params = dict(i=TInt(0, None), entry=ENTRY, table=TABLE, check_for_aliases=TBool())
     result = TBool()
     options = {"int_class": "rig/routing_table/entries.py::Routes", "no_merge": True}
@@ -140,7 +140,7 @@ class RemoveDefaultRoutes:
     still first-matched by the image of i (everything above it in the result was above it before and
     did not match); if i was removed, no later entry matches the key (it would intersect i) and no
     earlier one does, so hardware default routing takes over, which is what entry i did."""
-    properties = ("C04",)
+    properties = ("C04", "C01")
     params = dict(table=TABLE, target_length=TOpt(TInt(0, None)), check_for_aliases=TBool())
     modular = ("rig/routing_table/remove_default_routes.py::_is_defaultable",)
     options = {"var_shapes": {"new_table": TABLE}, "int_class": "rig/routing_table/entries.py::Routes"}
@@ -220,7 +220,7 @@ ANYTABLE = TSeq(TInt())           # the front end only looks at lengths and hand
 
 @contract("rig/routing_table/minimise.py::_identity")
 class Identity:
-    properties = ("C04",)
+    properties = ("C04", "C01")
     params = dict(table=ANYTABLE, target_length=TOpt(TInt(0, None)))
     raises = {"MinimisationFailedError": None}
 
@@ -256,7 +256,7 @@ from pyvc.values import TConst   # noqa: E402
 class MinimiseTable:
     """two methods after the built-in identity (the default is default-route removal, then ordered
     covering); each method is an opaque callable with the assumed contract of _method_call"""
-    properties = ("C04",)
+    properties = ("C04", "C01")
     params = dict(table=ANYTABLE, target_length=TOpt(TInt(0, None)), methods=TTuple(METHOD(0), METHOD(1)),
                   g_r0=ANYTABLE, g_r1=ANYTABLE, g_f0=TInt(0, None), g_f1=TInt(0, None), g_fail0=TBool(), g_fail1=TBool())
     externals = {"Method.__call__": _method_call}
@@ -296,7 +296,7 @@ def gen(key, mask):
 
 @contract("rig/routing_table/ordered_covering.py::_get_generality")
 class GetGenerality:
-    properties = ("C04",)
+    properties = ("C04", "C01")
     bv = 40
     params = dict(key=KEY, mask=KEY)
 
@@ -323,7 +323,7 @@ def g_at(table, i):
 class InsertionIndex:
     """binary search followed by a forward scan: on a table listed in increasing order of generality
     the result splits it into the entries of smaller generality and those of equal or greater one"""
-    properties = ("C04",)
+    properties = ("C04", "C01")
     params = dict(routing_table=TSeq(KM), generality=TInt(0, 33))
     modular = ("rig/routing_table/ordered_covering.py::_get_generality",)
     loop_headers = {0: "while pg != generality and bottom < pos < top:", 1: "while (pos < len(routing_table) and"}
@@ -367,7 +367,7 @@ def folded(any_ones, all_ones, all_selected, key, mask):
 class MergeFoldStep:
     fragment_head = "for i in entries:"
     """ONE iteration of `for i in entries:`: the entry is folded in and every member folded before stays folded"""
-    properties = ("C04",)
+    properties = ("C04", "C01")
     bv = 40
     params = dict(i=TInt(0, None), routing_table=TABLE, sources=TSmallSet([None] + ROUTES),
                   any_ones=KEY, all_ones=KEY, all_selected=KEY, g_key=KEY, g_mask=KEY)
@@ -396,7 +396,7 @@ class MergeFoldStep:
 class MergeKeyMask:
     """the four statements after the loop (any_zeros, new_xs, mask, key): the merged entry matches every key a folded member
     matches, and its key has no bit outside its mask"""
-    properties = ("C04",)
+    properties = ("C04", "C01")
     bv = 40
     params = dict(any_ones=KEY, all_ones=KEY, all_selected=KEY, g_key=KEY, g_mask=KEY)
     fragment_result = ("key", "mask")
@@ -446,7 +446,7 @@ def _tables_setitem(E, obj, args, kwargs, st, node):
 class MinimiseTablesStep:
     """one chip: ITS table is minimised with ITS target and the methods given - every chip on its own, whatever other chips
     carry - and the result is stored for that chip exactly when it is not empty"""
-    properties = ("C04",)
+    properties = ("C04", "C01")
     params = dict(chip=TTuple(TInt(0, 255), TInt(0, 255)), table=ANYTABLE, lengths=_TRec("Lengths"), methods=TInt(), new_tables=_TRec("Dict"),
                   g_target=TOpt(TInt(0, None)), g_new=ANYTABLE, g_fail=TBool())
     fragment_result = ()
@@ -468,3 +468,55 @@ class MinimiseTablesStep:
     def ensures_stored_for_this_chip_unless_empty(chip, g_new, _trace):
         return ((seq_len(g_new) == 0 and len(_trace) == 2)
                 or (seq_len(g_new) > 0 and len(_trace) == 3 and _trace[2] == ("store", chip, g_new)))
+
+
+# ---- the up-check of ordered covering: one member of a proposed merge (fragment) ------------------------------------------
+from pyvc.values import TSet as _TSet, ObjV as _ObjV4   # noqa: E402
+from pyvc.speclib import exists_range as _exists_range   # noqa: E402
+
+KM = TRec("RoutingTableEntry", key=KEY, mask=KEY)
+MERGE = TRec("_Merge", routing_table=TSeq(KM), entries=_TSet(TInt()), insertion_index=TInt(0, None), goodness=TInt())
+
+
+def _new_merge(E, args, kwargs, st, node):
+    """_Merge(table[, entries]) (its construction is under contract of its own: MergeFoldStep / MergeKeyMask): recorded; the
+    merge built from the remaining members is the ghost g_rest, the empty merge the ghost g_empty"""
+    s = st.copy()
+    if len(args) == 2:
+        s.trace = _ListV(s.trace.items + (("merge_of", args[1]),))
+        return [(s, st.env["g_rest"])]
+    s.trace = _ListV(s.trace.items + (("empty_merge",),))
+    return [(s, st.env["g_empty"])]
+
+
+def shares_a_key(k1, m1, k2, m2):
+    """some key is matched by both patterns: they agree on every bit both of them care about"""
+    return ((k1 ^ k2) & m1 & m2) == 0
+
+
+@contract("rig/routing_table/ordered_covering.py::_refine_upcheck@forbody:0")
+class UpcheckMember:
+    """a member of the merge is taken out exactly when some entry between its present position and the place the merged entry
+    would be inserted shares a key with it - WHATEVER the generality of that entry (entries produced by earlier merges overlap
+    without being more general) - for then that entry would newly be matched first by keys that used to reach the member"""
+    properties = ("C04", "C01")
+    params = dict(merge=MERGE, i=TInt(0, None), changed=TBool(), min_goodness=TInt(), g_rest=MERGE, g_empty=MERGE)
+    fragment_result = ("merge", "changed")
+    fragment_head = "for i in sorted(merge.entries, reverse=True):"
+    externals = {"class:_Merge": _new_merge}
+    assumptions = ["_Merge(...) is recorded here (its construction has contracts of its own); the table is a sequence of (key, mask) records"]
+
+    def native(i):
+        raise __import__("pyvc.replay", fromlist=["OutsideHarness"]).OutsideHarness()
+
+    def requires(merge, i):
+        return (0 <= i < seq_len(merge.routing_table) and merge.insertion_index <= seq_len(merge.routing_table)
+                and forall_range(0, seq_len(merge.routing_table), lambda j: well_formed(select(merge.routing_table, j).key, select(merge.routing_table, j).mask))
+                and well_formed(select(merge.routing_table, i).key, select(merge.routing_table, i).mask))
+
+    def ensures_member_removed_exactly_when_something_in_between_shares_a_key(merge, i, changed, min_goodness, g_rest, g_empty, result, _trace):
+        e = select(merge.routing_table, i)
+        covered = _exists_range(i + 1, merge.insertion_index, lambda j: shares_a_key(e.key, e.mask, select(merge.routing_table, j).key, select(merge.routing_table, j).mask))
+        return (implies(not covered, len(_trace) == 0 and result[1] == changed)
+                and implies(covered, len(_trace) >= 1 and result[1]
+                            and (len(_trace) == 2) == (g_rest.goodness <= min_goodness)))
